@@ -8,6 +8,7 @@ Import ListNotations.
 Theorem C16_overlap_rejected : forall g s cf n f,
   running s = true -> step g s (ECall cf n f) = (s, [Raised ErrRuntime]).
 Proof. exact overlap_rejected. Qed.
+Print Assumptions C16_overlap_rejected.
 
 (* promptness: as soon as the oldest undelivered batch has completed, a waiting consumer gets its first
    value -- no further completion event is needed *)
@@ -17,12 +18,14 @@ Theorem C16_prompt : forall s j js v vs,
   jobs s = j :: js -> status_of s j = Done -> tasks_of s j = v :: vs ->
   snd (try_advance s) = Some (Val v).
 Proof. exact head_done_is_delivered. Qed.
+Print Assumptions C16_prompt.
 
 (* ordered generator: the stream is always a prefix of the submission order *)
 Theorem C16_ordered_prefix : forall s, reach s -> mode (c s) = Ordered -> ifail s = None ->
   exception s = false -> abandoned s = false ->
   exists rest, delivered s ++ rest = seq 0 (taken s) /\ taken s <= N s.
 Proof. exact ordered_output_is_prefix. Qed.
+Print Assumptions C16_ordered_prefix.
 
 (* closing the generator inside the retrieval loop sets the abort flag, after which nothing is taken
    from the input and nothing is submitted (C09_stop_after_abort), and the object is not running *)
@@ -30,6 +33,7 @@ Theorem C16_close_aborts : forall s, phase s = Retrieving ->
   let s' := fst (step true s EClose) in
   aborting s' = true /\ running s' = false /\ phase s' = Finished /\ jobs s' = [].
 Proof. intros s H. unfold step. cbn [step_raw]. rewrite H. cbn. rewrite Bool.orb_true_r. auto. Qed.
+Print Assumptions C16_close_aborts.
 
 (* generator_unordered: when the call ends normally every result has been delivered exactly once
    (a permutation of the sequential results), whatever the completion order and the schedule *)
@@ -37,9 +41,11 @@ Theorem C16_unordered_exactly_once : forall s, reach s -> mode (c s) = Unordered
   phase s = Finished -> exception s = false -> abandoned s = false ->
   Permutation (delivered s) (seq 0 (N s)) /\ NoDup (delivered s).
 Proof. exact unordered_output_complete. Qed.
+Print Assumptions C16_unordered_exactly_once.
 
 (* ... and at every moment before that nothing was delivered twice and nothing that was not taken *)
 Theorem C16_unordered_sound : forall s, reach s -> mode (c s) = Unordered -> ifail s = None ->
   exception s = false -> abandoned s = false ->
   NoDup (delivered s) /\ incl (delivered s) (seq 0 (taken s)).
 Proof. exact unordered_output_sound. Qed.
+Print Assumptions C16_unordered_sound.
